@@ -965,3 +965,124 @@ def rule_K6(F, R):
 def _bbsp2(b, bb):
     t = b["blocks"][bb]["t"]
     return t["sp"] if t else b["sp"]
+
+
+# ---------------------------------------------------------------------------------------
+# Round 7: where cleanup may run, what add_version may delete, who may delete at all
+
+def rule_K8(F, R):
+    R.begin("K8", "the object-store add_version runs cleanup only after it has won the swap: cleanup judges an uploaded-but-unswapped version by `parent != latest`, which is true of every object while no head exists (or before this call has validated it) - a cleanup at any other point of add_version deletes the version a concurrent first sync has uploaded and is about to make the head")
+    im, b = cloud_add_version(F)
+    cf = cleanup_fn(F)
+    if b is None or cf is None:
+        R.missing("K8", "object-store add_version / cleanup")
+        return
+    c = cfg_of(b)
+    fl = flow_of(b)
+    subj = b["owner_fn"]
+    names, cas = latest_names(F, b)
+    if len(cas) != 1:
+        R.missing("K8", "exactly one compare_and_swap in add_version")
+        return
+    cas_bb = cas[0][0]
+    target = cf["owner_fn"]
+    sites = []
+    for (i, t) in c.calls():
+        for n in call_names(t):
+            p = _find_body(F, n)
+            if p and (F.owner(p) == target or target in F.reachable_from([p])) and F.owner(p) != subj:
+                sites.append((i, t))
+                break
+    if not sites:
+        R.info("K8", "add_version does not reach cleanup")
+        R.ok("K8", "no cleanup reachable from add_version", where(b))
+        return
+    true_edges = []
+    for s in sorted(c.reach):
+        t = c.term(s)
+        if not t or t["k"] != "switch":
+            continue
+        bo = bool_origin(fl, t["o"])
+        if bo and bo[0] == cas_bb:
+            true_edges += switch_true_edges(c, s, bo[2])
+    for (i, t) in sites:
+        if not true_edges:
+            R.violation("K8", subj, "cleanup-without-swap-test", "cleanup is reached from add_version although the outcome of the compare_and_swap is never tested", where(b, i))
+            continue
+        r = c.reachable(0, removed_edges=[(e[0], e[1]) if len(e) > 2 else e for e in true_edges]) if False else None
+        # the call must be unreachable once the swap's true edges are cut
+        cut = [(e[0], e[1]) for e in true_edges]
+        reach = c.reachable(0, removed_edges=cut)
+        if i in reach:
+            R.violation("K8", subj, "cleanup-not-after-won-swap", "cleanup can run at %s without this call having won the compare_and_swap (before the head was read and validated, or after losing): every version object whose parent is not the head it sees - with no head, every object - is deleted, including one a concurrent writer is about to make the head" % loc(t["sp"]), where(b, i))
+        else:
+            R.ok("K8", "cleanup only on the swap==true side", where(b, i))
+
+
+def rule_K9(F, R):
+    R.begin("K9", "add_version deletes nothing but the object this very call uploaded: the name passed to Service::del derives from the same fresh id as the name passed to Service::put. Deleting other children of the parent (`abandoned attempts`) removes the accepted version once the chain has grown past it")
+    im, b = cloud_add_version(F)
+    if b is None:
+        R.missing("K9", "object-store add_version")
+        return
+    c = cfg_of(b)
+    fl = flow_of(b)
+    subj = b["owner_fn"]
+    dels = calls_matching(c, re.escape(SERVICE) + "::del$")
+    puts = calls_matching(c, re.escape(SERVICE) + "::put$")
+    if not puts:
+        R.missing("K9", "Service::put in add_version")
+        return
+    fresh = lambda s_: {r_ for r_ in s_.roots if r_[0] in ("call", "callnode") and str(r_[2]).endswith("::new_v4")}
+    pf = set()
+    for (_i, t) in puts:
+        pf |= fresh(fl.slice_operand(t["args"][1]))
+    for (i, t) in dels:
+        ds = fl.slice_operand(t["args"][1])
+        listing = [n for n in ds.call_names() if n.endswith("Service::list") or re.search(r"get_child_versions$", n)]
+        if not (fresh(ds) & pf) or listing:
+            R.violation("K9", subj, "deletes-other-objects", "Service::del at %s names an object that is not (only) the one this call uploaded%s" % (loc(t["sp"]), " (it comes out of a listing)" if listing else ""), where(b, i))
+        else:
+            R.ok("K9", "del names the object uploaded by this call", where(b, i))
+    if not dels:
+        R.ok("K9", "add_version deletes nothing", where(b))
+
+
+def rule_G56(F, R):
+    R.begin("G5", "cleanup reads the chain head once: the chain walked and every exemption (`this object's parent is the head: it may be an upload in flight`) are judged against the same value. With a second, fresher read the exemption is tested against a head whose own object was listed as off the (older) chain - the new head is deleted")
+    b = cleanup_fn(F)
+    if b is None:
+        R.missing("G5", "cleanup")
+        return
+    c = cfg_of(b)
+    im, avb = cloud_add_version(F)
+    names, _cas = latest_names(F, avb)
+    reader_fns, _ = readers_of(F, names)
+    rn = {_norm(x) for x in reader_fns}
+    reads = [(i, t) for i, t in c.calls() if any(_norm(n) in rn for n in call_names(t))]
+    loops = c.loops()
+    if len(reads) == 1 and not any(reads[0][0] in lb for lb in loops.values()):
+        R.ok("G5", "one read of the head in cleanup", where(b, reads[0][0]))
+    elif not reads:
+        R.missing("G5", "a read of the chain head in cleanup")
+    else:
+        R.violation("G5", b["owner_fn"], "head-read-twice", "cleanup reads the chain head %s: decisions taken against different values of the head delete objects that are on the chain as seen by the later one" % ("in a loop" if len(reads) == 1 else "%d times" % len(reads)), where(b, reads[-1][0]))
+    R.begin("G6", "only cleanup (and add_version, for its own lost upload) deletes objects: any other deletion is decided without the chain walk that tells a needed snapshot or version from a superseded one")
+    subj_ok = {b["owner_fn"], (avb or {}).get("owner_fn")}
+    n = 0
+    for (bp, bb) in sorted(F.callsites.get(SERVICE + "::del", [])):
+        body = F.bodies[bp]
+        if body["blocks"][bb]["cleanup"] or "cloud::server" not in bp:
+            continue
+        n += 1
+        own = F.owner(bp)
+        if own in subj_ok or _norm(own) in {_norm(x) for x in subj_ok if x}:
+            R.ok("G6", "del in %s" % own.split("::")[-1], where(body, bb))
+        else:
+            # a helper called only from cleanup / add_version is fine
+            callers = {F.owner(q) for q, cs in F.calls_in.items() for (_i, t) in cs if any(_norm(x) == _norm(own) for x in call_names(t))}
+            if callers and all(_norm(q) in {_norm(x) for x in subj_ok if x} for q in callers):
+                R.ok("G6", "del in %s (helper of cleanup / add_version)" % own.split("::")[-1], where(body, bb))
+            else:
+                R.violation("G6", own, "deletion-outside-cleanup", "%s deletes objects itself (Service::del at %s): superseded objects are told from needed ones only by cleanup's walk from the head" % (own.split("::")[-1], loc(body["blocks"][bb]["t"]["sp"])), where(body, bb))
+    R.floor("G6", "Service::del sites in the object-store server", n, 3)
